@@ -97,6 +97,8 @@ impl BufferParser for Parser {
                         return Err(ParserError::Description("unsupported avatar command").into());
                     }
                 }
+                // the relative moves above are unclamped: keep the cursor on the visible screen
+                buf.terminal_state.limit_caret_pos(buf, caret);
                 self.avt_state = AvtReadState::Chars;
                 Ok(CallbackAction::NoUpdate)
             }
@@ -134,6 +136,7 @@ impl BufferParser for Parser {
                 2 => {
                     caret.pos.x = self.avt_repeat_char as i32;
                     caret.pos.y = ch as i32;
+                    buf.terminal_state.limit_caret_pos(buf, caret);
 
                     self.avt_state = AvtReadState::Chars;
                     Ok(CallbackAction::NoUpdate)
